@@ -123,8 +123,10 @@ _blackbox_vlogger(int32_t target,
 	if (msg_len >= t->max_line_length) {
 	    chunk = msg_len_pt + sizeof(uint32_t); /* Reset */
 
-	    /* Leave this at QB_LOG_MAX_LEN so as not to overflow the blackbox */
-	    msg_len = qb_vsnprintf_serialize(chunk, QB_LOG_MAX_LEN,
+	    /* never more than was reserved: max_line_length may be smaller
+	     * than this text */
+	    msg_len = qb_vsnprintf_serialize(chunk,
+		QB_MIN(QB_LOG_MAX_LEN, t->max_line_length),
 		"Log message too long to be stored in the blackbox.  "\
 		"Maximum is QB_LOG_MAX_LEN" , ap);
 	}
